@@ -200,7 +200,49 @@ def wave_summary(chk, fi, c):
     """canonical forms of the wave construction of one function; also emits the R-SE-SIGN obligations"""
     nm = Normaliser()
     out = {}
+    # the quantities are known by what makes them, then given the names the pinned tree uses: the array made by np.pad of the record is
+    # the upward wave, the one made by np.interp the delayed wave, the first argument of that interp the delay positions, what is
+    # subtracted from arange(...) there the shifts, and int(max(shifts)) the largest shift
+    import copy as _copy
+    root = fi.node
+    a0 = [n for n in ast.walk(root) if isinstance(n, ast.Assign) and len(n.targets) == 1 and isinstance(n.targets[0], ast.Name)]
+    roles = {}
+
+    def made_by(short):
+        return [n for n in a0 if isinstance(n.value, ast.Call) and ast.unparse(n.value.func).split(".")[-1] == short]
+    pd_, ip_ = made_by("pad"), made_by("interp")
+    if len(pd_) == 1:
+        roles[pd_[0].targets[0].id] = "up_wave"
+    if len(ip_) == 1:
+        roles[ip_[0].targets[0].id] = "down_waves"
+        if ip_[0].value.args and isinstance(ip_[0].value.args[0], ast.Name):
+            roles[ip_[0].value.args[0].id] = "dshifted"
+            dsd = [n for n in a0 if n.targets[0].id == ip_[0].value.args[0].id]
+            if len(dsd) == 1 and isinstance(dsd[0].value, ast.BinOp) and isinstance(dsd[0].value.op, ast.Sub):
+                r_ = dsd[0].value.right
+                while isinstance(r_, ast.Subscript):
+                    r_ = r_.value
+                if isinstance(r_, ast.Name):
+                    roles[r_.id] = "shifts"
+    for n in a0:
+        if isinstance(n.value, ast.Call) and ast.unparse(n.value.func) == "int" and n.value.args and isinstance(n.value.args[0], ast.Call) and \
+                ast.unparse(n.value.args[0].func).split(".")[-1] == "max":
+            roles[n.targets[0].id] = "max_shift"
+    roles = {k: v for k, v in roles.items() if k != v}
+    if roles and not (set(roles.values()) & {x.id for x in ast.walk(root) if isinstance(x, ast.Name)}):
+        from ..normalise import _Rename
+        root = ast.fix_missing_locations(_Rename(roles).visit(_copy.deepcopy(root)))
+    fi = type("View", (), {"node": root, "loc": fi.loc, "params": fi.params})()
     assigns = [n for n in ast.walk(fi.node) if isinstance(n, ast.Assign) and len(n.targets) == 1 and isinstance(n.targets[0], ast.Name)]
+    # locals that only rename an expression of the parameters once (time_shifts = 2 * travel_times) are read through
+    once_ = {}
+    for n in assigns:
+        once_.setdefault(n.targets[0].id, []).append(n)
+    for k_, v_ in once_.items():
+        if len(v_) == 1 and k_ not in ("shifts", "max_shift", "up_wave", "down_waves", "dshifted", "acc_series") and k_ not in fi.params and \
+                not any(isinstance(x, ast.Call) for x in ast.walk(v_[0].value)) and \
+                not any(isinstance(x, ast.AugAssign) and isinstance(x.target, ast.Name) and x.target.id == k_ for x in ast.walk(fi.node)):
+            nm.env[k_] = Normaliser().poly(v_[0].value)
     byname = {}
     for n in assigns:
         byname.setdefault(n.targets[0].id, []).append(n)
